@@ -40,7 +40,7 @@ theorem storeLoop1_spec (e : Env) (he : GenSpec e) (start limit : ℕ) (hlim : l
       exact ⟨s, acc, L, rfl, hL, by omega, hP, hacc⟩
 
 /-- StorePrimes.hpp:86 — the element loop stops at the first entry `> limit` (one exists: no read past the end) -/
-theorem storeLoop2_spec (limit : ℕ) (buf : List ℕ) :
+theorem storeLoop2_specC (limit : ℕ) (buf : List ℕ) :
     ∀ k i (acc : List ℕ), buf.length - i = k → (∃ j, ∃ h : j < buf.length, i ≤ j ∧ limit < buf[j]) →
       storeLoop2 limit buf i acc = .ok (acc ++ (buf.drop i).takeWhile (fun y => decide (y ≤ limit))) := by
   intro k
@@ -100,7 +100,7 @@ theorem storePrimes_correct (e : Env) (he : GenSpec e) (vmax start stop : ℕ) (
       have := List.getLast?_eq_getElem? (l := s1.buf)
       rw [hL1, List.getElem?_eq_getElem (by omega)] at this
       exact (Option.some.inj this).symm
-    rw [storeLoop2_spec _ s1.buf _ 0 acc1 rfl ⟨s1.buf.length - 1, by omega, Nat.zero_le _, by rw [hlast]; exact hgt⟩]
+    rw [storeLoop2_specC _ s1.buf _ 0 acc1 rfl ⟨s1.buf.length - 1, by omega, Nat.zero_le _, by rw [hlast]; exact hgt⟩]
     simp only [List.drop_zero]
     have hR : PrimesIn (acc1 ++ s1.buf.takeWhile (fun y => decide (y ≤ min stop (maxPrime64 - 1)))) start (min stop (maxPrime64 - 1)) := by
       have := hP1.takeWhile (b := min stop (maxPrime64 - 1)) (by omega)
